@@ -128,6 +128,87 @@ def _rename_functions_back(tree, ref_funcs, done):
         done.append((m, new, '<function renamed back to %s>' % old))
 
 
+# ------------------------------------------------------------------------------------------------ C2: closures lifted to module level
+def _renest_lifted_closures(tree, ref_funcs, done):
+    """The pinned tree has a function nested in P that is gone, and a NEW module-level function has its body with MORE parameters
+    ("closure moved to module level, captured variables passed in"): when every call passes, for each added parameter, the variable of
+    P with the parameter's role (one plain name, the same at every call, a local or parameter of P), the function is nested again
+    under its old name and reads those variables from P as before."""
+    present = dict(functions_of(tree))
+    missing = [q for q in ref_funcs if q not in present and '.' in q]
+    if not missing:
+        return
+    for m in missing:
+        pq, _, old = m.rpartition('.')
+        parent = present.get(pq)
+        if parent is None or not isinstance(parent, FUNC):
+            continue
+        ref_shape = ref_funcs[m]
+        rhead, _, rbody = ref_shape.partition('\n')
+        n_ref = rhead.count('_') - 1 if rhead.startswith('def _(') else None
+        for e_q, e in list(present.items()):
+            if e_q in ref_funcs or '.' in e_q or e not in tree.body or e.decorator_list:
+                continue
+            sh = shape(e)
+            ehead, _, ebody = sh.partition('\n')
+            if ebody != rbody or not ehead.startswith('def _(') or n_ref is None:
+                continue
+            a = e.args
+            if a.vararg or a.kwarg or a.kwonlyargs or a.posonlyargs or a.defaults:
+                continue
+            params = [x.arg for x in a.args]
+            need = len(params) - n_ref
+            if need <= 0:
+                continue
+            refs = [n for n in ast.walk(tree) if isinstance(n, ast.Name) and n.id == e.name]
+            calls = [c for c in ast.walk(parent) if isinstance(c, ast.Call) and any(c.func is r for r in refs)]
+            if not refs or len(calls) != len(refs):
+                continue        # used elsewhere or not only called
+            if any(c.keywords or len(c.args) != len(params) or any(isinstance(x, ast.Starred) for x in c.args) for c in calls):
+                continue
+            stored_in_e = {n.id for n in ast.walk(e) if isinstance(n, ast.Name) and isinstance(n.ctx, (ast.Store, ast.Del))}
+            parent_names = {n.id for n in _own(parent) if isinstance(n, ast.Name)} | {x.arg for x in parent.args.args + parent.args.kwonlyargs}
+            qualifying = []
+            for i, p_ in enumerate(params):
+                args_i = [c.args[i] for c in calls]
+                if p_ in stored_in_e or not all(isinstance(x, ast.Name) for x in args_i) or len({x.id for x in args_i}) != 1:
+                    continue
+                if args_i[0].id not in parent_names:
+                    continue
+                qualifying.append((i, p_, args_i[0].id))
+            same_name = [t for t in qualifying if t[1] == t[2]]
+            chosen = same_name if len(same_name) == need else (qualifying if len(qualifying) == need else None)
+            if chosen is None:
+                continue
+            if old in {n.id for n in ast.walk(parent) if isinstance(n, ast.Name)}:
+                continue
+            idx = {i for i, _p, _v in chosen}
+            ren = {p_: v for _i, p_, v in chosen if p_ != v}
+            # a captured variable must not be shadowed by another name of the lifted function
+            inner_names = _all_names(e) - {p_ for _i, p_, _v in chosen}
+            if any(v in inner_names for _i, _p, v in chosen if _p != v):
+                continue
+            e.args.args = [x for i, x in enumerate(e.args.args) if i not in idx]
+            if ren:
+                _Rename(ren).visit(e)
+            e.name = old
+            for c in calls:
+                c.args = [x for i, x in enumerate(c.args) if i not in idx]
+                c.func.id = old
+            tree.body.remove(e)
+            body = parent.body
+            at = 1 if body and isinstance(body[0], ast.Expr) and isinstance(body[0].value, ast.Constant) and isinstance(body[0].value.value, str) else 0
+            first_line = getattr(body[at], 'lineno', parent.lineno) if at < len(body) else parent.lineno
+            for x in ast.walk(e):
+                if hasattr(x, 'lineno'):
+                    x.lineno = first_line
+                    x.end_lineno = first_line
+            body.insert(at, e)
+            done.append((pq, e_q, '<module-level function nested again as %s (captured: %s)>' % (old, ', '.join(v for _i, _p, v in chosen))))
+            present = dict(functions_of(tree))
+            break
+
+
 # ------------------------------------------------------------------------------------------------ D: new module-level constants
 class _Subst(ast.NodeTransformer):
     def __init__(self, name, value):
@@ -336,6 +417,184 @@ def _is_pure_attr_chain(e):
             continue
         return False
     return True
+
+
+# ------------------------------------------------------------------------------------------------ B2: extracted generators / context managers
+def _inline_new_yielders(tree, ref_funcs, done):
+    """A NEW function with exactly one `yield` statement that is used only as `with helper(args):` (decorated @contextmanager) or only as
+    the iterable of `for X in helper(args):` loops (a plain generator; loop bodies without break/continue/else): its body replaces the
+    statement, with the caller's block in the place of the `yield` (`X = <yielded value>` in front of it for a loop).  That is the run
+    the interpreter performs: the helper runs to its yield, the block runs, the helper resumes; `finally` clauses around the yield are
+    entered on every way out of the block in both forms."""
+    cands = [(n, None, tree.body) for n in tree.body if isinstance(n, ast.FunctionDef)]
+    for cls in [n for n in ast.walk(tree) if isinstance(n, ast.ClassDef)]:
+        cands += [(n, cls, cls.body) for n in cls.body if isinstance(n, ast.FunctionDef)]
+    quals = {id(f): q for q, f in functions_of(tree)}
+    for helper, cls, home in cands:
+        if quals.get(id(helper)) in ref_funcs:
+            continue
+        decs = [ast.unparse(d).split('.')[-1] for d in helper.decorator_list]
+        is_cm = decs == ['contextmanager']
+        if decs and not is_cm:
+            continue
+        a = helper.args
+        if a.vararg or a.kwarg or a.kwonlyargs or a.posonlyargs or a.defaults:
+            continue
+        if cls is not None and (not a.args or a.args[0].arg != 'self'):
+            continue
+        own = list(_own(helper))
+        if any(isinstance(n, ast.Return) and n.value is not None for n in own) or any(isinstance(n, FUNC + (ast.Lambda, ast.ClassDef, ast.Global, ast.Nonlocal, ast.Await)) for n in own):
+            continue
+        # guard clauses of the helper (`if c: ...; return`) are written as if/else first: a bare return must leave only the helper
+        helper_body = _unguard(copy.deepcopy(_strip_doc(helper.body)))
+        own = [n for st_ in helper_body for n in [st_] + list(_own(st_))]
+        if any(isinstance(n, ast.Return) for n in own):
+            continue
+        ys = [n for n in own if isinstance(n, (ast.Yield, ast.YieldFrom))]
+        if not 1 <= len(ys) <= 2 or not all(isinstance(y, ast.Yield) for y in ys):
+            continue
+        ystmt = [n for n in own if isinstance(n, ast.Expr) and any(n.value is y for y in ys)]
+        if len(ystmt) != len(ys):
+            continue
+        if len(ys) > 1 and any(isinstance(n, (ast.For, ast.While)) for n in own):
+            continue        # several yields are taken as alternatives (one per path), not as a sequence
+        if cls is None:
+            refs = [n for n in ast.walk(tree) if isinstance(n, ast.Name) and n.id == helper.name]
+        else:
+            refs = [n for n in ast.walk(tree) if isinstance(n, ast.Attribute) and n.attr == helper.name]
+            if any(not (isinstance(r.value, ast.Name) and r.value.id == 'self' and any(x is r for x in ast.walk(cls))) for r in refs):
+                continue
+        if not 1 <= len(refs) <= 6:
+            continue
+        sites = []
+        for q, f in functions_of(tree):
+            if f is helper:
+                continue
+            for lst in _blocks(f):
+                for i, st in enumerate(lst):
+                    call = None
+                    if is_cm and isinstance(st, ast.With) and len(st.items) == 1 and st.items[0].optional_vars is None \
+                            and isinstance(st.items[0].context_expr, ast.Call):
+                        call = st.items[0].context_expr
+                    elif not is_cm and isinstance(st, ast.For) and not st.orelse and isinstance(st.target, ast.Name) and isinstance(st.iter, ast.Call):
+                        call = st.iter
+                    if call is not None and any(call.func is r for r in refs):
+                        sites.append((f, lst, st, call))
+        if len(sites) != len(refs):
+            continue
+        ok_all = True
+        plans = []
+        for caller, lst, st, call in sites:
+            params = [x.arg for x in a.args]
+            if cls is not None:
+                params = params[1:]
+                if not (caller.args.args and caller.args.args[0].arg == 'self'):
+                    ok_all = False
+                    break
+            if len(call.args) + len(call.keywords) != len(params) or any(k.arg is None for k in call.keywords) or any(isinstance(x, ast.Starred) for x in call.args):
+                ok_all = False
+                break
+            bind = dict(zip(params, call.args))
+            for k in call.keywords:
+                if k.arg not in params or k.arg in bind:
+                    ok_all = False
+                bind[k.arg] = k.value
+            if not ok_all or set(bind) != set(params):
+                ok_all = False
+                break
+            if not is_cm:
+                # break/continue of THIS loop in its body: the loop would not be the helper's loop any more
+                def own_jumps(stmts):
+                    for x in stmts:
+                        if isinstance(x, (ast.Break, ast.Continue)):
+                            yield x
+                        if isinstance(x, (ast.For, ast.While) + FUNC + (ast.ClassDef,)):
+                            continue
+                        for field in ('body', 'orelse', 'finalbody'):
+                            sub = getattr(x, field, None)
+                            if isinstance(sub, list) and sub and isinstance(sub[0], ast.stmt):
+                                yield from own_jumps(sub)
+                        if isinstance(x, ast.Try):
+                            for h in x.handlers:
+                                yield from own_jumps(h.body)
+                if list(own_jumps(st.body)):
+                    ok_all = False
+                    break
+            plans.append((caller, lst, st, call, bind))
+        if not ok_all:
+            continue
+        for caller, lst, st, call, bind in plans:
+            body = copy.deepcopy(helper_body)
+            stored = {n.id for s_ in body for n in ast.walk(s_) if isinstance(n, ast.Name) and isinstance(n.ctx, (ast.Store, ast.Del))}
+            caller_names = _all_names(caller)
+            mapping = {}
+            for nm in stored - set(bind):
+                if nm in caller_names:
+                    mapping[nm] = nm + '__inl'
+            pre = []
+            for p_, arg in bind.items():
+                if isinstance(arg, ast.Name) and p_ not in stored:
+                    mapping[p_] = arg.id
+                else:
+                    tgt = p_ if p_ not in caller_names else p_ + '__inl'      # a parameter the helper re-binds never aliases a caller's name
+                    if tgt != p_:
+                        mapping[p_] = tgt
+                    pre.append(ast.Assign(targets=[ast.Name(id=tgt, ctx=ast.Store())], value=copy.deepcopy(arg)))
+            ren = _Rename(mapping)
+            body = [ren.visit(s_) for s_ in body]
+            block = list(st.body)
+            used_block = [False]
+
+            def put(stmts):
+                out = []
+                for x in stmts:
+                    if isinstance(x, ast.Expr) and isinstance(x.value, ast.Yield):
+                        if not is_cm:
+                            v = x.value.value if x.value.value is not None else ast.Constant(value=None)
+                            if ast.unparse(v) != st.target.id:
+                                out.append(ast.Assign(targets=[ast.Name(id=st.target.id, ctx=ast.Store())], value=v))
+                        out.extend(block if not used_block[0] else copy.deepcopy(block))
+                        used_block[0] = True
+                        continue
+                    for field in ('body', 'orelse', 'finalbody'):
+                        sub = getattr(x, field, None)
+                        if isinstance(sub, list) and sub and isinstance(sub[0], ast.stmt):
+                            setattr(x, field, put(sub))
+                    if isinstance(x, ast.Try):
+                        for h in x.handlers:
+                            h.body = put(h.body)
+                    out.append(x)
+                return out
+            keep = {id(y) for b_ in block for y in ast.walk(b_)}
+            new = pre + put(body)
+            for n in new:
+                for x in ast.walk(n):
+                    if id(x) in keep:
+                        continue
+                    if hasattr(x, 'lineno') or isinstance(x, (ast.stmt, ast.expr)):
+                        x.lineno = st.lineno
+                        x.end_lineno = getattr(st, 'lineno', st.lineno)
+                        x.col_offset = getattr(st, 'col_offset', 0)
+                        x.end_col_offset = getattr(st, 'col_offset', 0)
+                ast.fix_missing_locations(n)
+            i = next(k for k, t in enumerate(lst) if t is st)
+            lst[i:i + 1] = new
+            done.append((caller.name, helper.name, '<new %s inlined around the block it served>' % ('context manager' if is_cm else 'generator')))
+        home.remove(helper)
+
+
+def _unguard(stmts):
+    """`if c: A; return` + REST  ->  `if c: A else: REST` (recursively): the same paths, no bare return"""
+    for i, st in enumerate(stmts):
+        if isinstance(st, ast.If) and not st.orelse and st.body and isinstance(st.body[-1], ast.Return) and st.body[-1].value is None \
+                and not any(isinstance(x, ast.Return) for b_ in st.body[:-1] for x in ast.walk(b_)):
+            rest = _unguard(stmts[i + 1:])
+            new_if = ast.If(test=st.test, body=st.body[:-1] or [ast.Pass()], orelse=rest)
+            ast.copy_location(new_if, st)
+            return stmts[:i] + [new_if]
+    if stmts and isinstance(stmts[-1], ast.Return) and stmts[-1].value is None:
+        return stmts[:-1] or [ast.Pass()]
+    return stmts
 
 
 def _first_evaluated(root, target):
@@ -555,7 +814,8 @@ def _inline_new_helpers(tree, ref_funcs, done):
                 if isinstance(arg, ast.Name) and p_ not in stored:
                     mapping[p_] = arg.id
                 else:
-                    tgt = p_ if p_ not in caller_names or (isinstance(arg, ast.Name) and arg.id == p_) else p_ + '__inl'
+                    # a parameter the helper re-binds never aliases the caller's variable of the same name (the caller may read it later)
+                    tgt = p_ if p_ not in caller_names or (isinstance(arg, ast.Name) and arg.id == p_ and p_ not in stored) else p_ + '__inl'
                     if tgt != p_:
                         mapping[p_] = tgt
                     if not (isinstance(arg, ast.Name) and arg.id == tgt):
@@ -628,6 +888,8 @@ _PURE_CALLS = {'str', 'len', 'int', 'float', 'bool', 'repr', 'tuple', 'frozenset
 
 
 def _is_pure(e):
+    if isinstance(e, (ast.List, ast.Dict, ast.Set)):
+        return False        # a fresh mutable object has identity: two reads of the expression are two objects
     for x in ast.walk(e):
         if isinstance(x, _IMPURE):
             return False
@@ -735,6 +997,107 @@ def _inline_new_temps(func, known, done, qual):
                     break
             if changed:
                 break
+
+
+# ------------------------------------------------------------------------------------------------ A2: reference temporaries removed
+def _restore_reference_temps(func, ref_aliases, done, qual):
+    """The pinned function binds `name = <pure attribute chain>` once (reference table `__aliases__`) and the function as it is now has
+    no such local but reads that chain: the local is put back (bound just before the first statement that reads the chain, read
+    everywhere the chain was), so that rules see the statements they were written against.  Only when every read lies in or after
+    that statement in one block, nothing the chain reads is bound in between, and the reads are not inside a comprehension or lambda
+    that binds one of its names."""
+    if not ref_aliases:
+        return
+    for _round in (1, 2):
+        progressed = False
+        names_here = {x.id for x in ast.walk(func) if isinstance(x, ast.Name)} | \
+                     {a.arg for x in ast.walk(func) if isinstance(x, ast.arguments) for a in x.posonlyargs + x.args + x.kwonlyargs}
+        for nm, etext in ref_aliases.items():
+            if nm in names_here:
+                continue
+            try:
+                eref = ast.parse(etext, mode='eval').body
+            except SyntaxError:
+                continue
+            if not isinstance(eref, (ast.Attribute, ast.Subscript)) or not _is_pure_attr_chain(eref):
+                continue
+            reads = {x.id for x in ast.walk(eref) if isinstance(x, ast.Name)}
+            canon_text = ast.unparse(eref)
+            uses = [x for x in _own(func) if isinstance(x, type(eref)) and isinstance(getattr(x, 'ctx', None), ast.Load) and ast.unparse(x) == canon_text]
+            # an occurrence that is the prefix of a stored place (`a.b.c = 1` reads a.b) is a read as well: fine
+            if not uses:
+                continue
+            # binders (comprehensions, lambdas are not walked by _own) that bind a name the chain reads
+            bad = False
+            for comp in [c for c in _own(func) if isinstance(c, (ast.ListComp, ast.SetComp, ast.DictComp, ast.GeneratorExp))]:
+                bound = {y.id for g in comp.generators for y in ast.walk(g.target) if isinstance(y, ast.Name)}
+                if bound & reads and any(any(u is y for y in ast.walk(comp)) for u in uses):
+                    bad = True
+            if bad:
+                continue
+            # the block and statement that hold the first read; every read must be inside that statement or a later one of the block
+            place = None
+            for lst in _blocks(func):
+                idxs = [i for i, st in enumerate(lst) if any(any(u is y for y in ast.walk(st)) for u in uses)]
+                if not idxs:
+                    continue
+                covered = sum(1 for u in uses if any(any(u is y for y in ast.walk(st)) for st in lst))
+                if covered == len(uses):
+                    # deepest such block wins (blocks are yielded outer first)
+                    place = (lst, idxs[0])
+            if place is None:
+                continue
+            lst, i0 = place
+            first = lst[i0]
+            # a compound statement: the read must sit in its header (test/iter/items), else the binding would run on paths that never
+            # read the chain - harmless for a pure chain, but an attribute read of None is not: keep to headers and simple statements
+            if isinstance(first, (ast.For, ast.While, ast.If, ast.With, ast.Try)):
+                hdr = [first.iter] if isinstance(first, ast.For) else [first.test] if isinstance(first, (ast.While, ast.If)) else \
+                    [w.context_expr for w in first.items] if isinstance(first, ast.With) else []
+                if not any(any(u is y for y in ast.walk(h)) for h in hdr for u in uses):
+                    continue
+                if isinstance(first, ast.While):
+                    continue
+            lo = getattr(first, 'lineno', 0)
+            hi = max(getattr(u, 'lineno', lo) for u in uses)
+            stores = [x for x in _own(func) if isinstance(x, ast.Name) and isinstance(x.ctx, (ast.Store, ast.Del)) and x.id in reads]
+            if any(lo <= getattr(x, 'lineno', 0) <= hi for x in stores):
+                continue
+            use_ids = {id(u) for u in uses}
+
+            class _Put(ast.NodeTransformer):
+                def generic_visit(self, node):
+                    if id(node) in use_ids:
+                        return ast.copy_location(ast.Name(id=nm, ctx=ast.Load()), node)
+                    return super().generic_visit(node)
+
+                def visit_FunctionDef(self, node):
+                    return node
+                visit_AsyncFunctionDef = visit_ClassDef = visit_Lambda = visit_FunctionDef
+            for j in range(i0, len(lst)):
+                lst[j] = _Put().generic_visit(lst[j]) if not isinstance(lst[j], FUNC + (ast.ClassDef,)) else lst[j]
+            asg = ast.Assign(targets=[ast.Name(id=nm, ctx=ast.Store())], value=eref)
+            ast.copy_location(asg, first)
+            for x in ast.walk(asg):
+                ast.copy_location(x, first)
+            asg.end_lineno = getattr(first, 'lineno', None)
+            ast.fix_missing_locations(asg)
+            lst.insert(i0, asg)
+            done.append((qual, canon_text, '%s (temporary of the pinned function restored)' % nm))
+            names_here.add(nm)
+            progressed = True
+        if not progressed:
+            break
+
+
+def restore_reference_temps(mname, tree, ref):
+    done = []
+    al = ref.get('__aliases__', {}).get(mname, {})
+    if al:
+        for q, f in functions_of(tree):
+            if q in al:
+                _restore_reference_temps(f, al[q], done, q)
+    return done
 
 
 # ------------------------------------------------------------------------------------------------ E: comparison spelling
@@ -901,10 +1264,12 @@ def canonicalise_functions(mname, tree, ref):
     ref_funcs = (ref.get('__functions__') or {}).get(mname)
     if ref_funcs is None:
         return done
+    _renest_lifted_closures(tree, ref_funcs, done)
     _rename_functions_back(tree, ref_funcs, done)
     ref_consts = set((ref.get('__module_names__') or {}).get(mname) or ())
     if ref_consts:
         _inline_new_constants(tree, ref_consts, done)
+    _inline_new_yielders(tree, ref_funcs, done)
     _inline_new_helpers(tree, ref_funcs, done)
     return done
 
